@@ -903,6 +903,9 @@ package expr
 //@ datainv GRPCErrorExpr.Response nonnil: value != nil
 //@ datainv GRPCResponseExpr.Parent nonnil: value.val != nil
 //@ datainv GRPCEndpointExpr.MethodExpr nonnil: value != nil
+//   -- a result type wraps a user type, a user type wraps its attribute (dsl.Type, dsl.ResultType, NewResultType... allocate both)
+//@ datainv ResultTypeExpr.UserTypeExpr nonnil: value != nil
+//@ datainv UserTypeExpr.AttributeExpr nonnil: value != nil
 //   -- the root's API is set (by dsl.API or by RootExpr.WalkSets) before any expression is validated; NewAPIExpr
 //   -- allocates its HTTP and gRPC parts
 //@ datainv RootExpr.API walked: value != nil
